@@ -114,6 +114,30 @@ fn serde_serialize() {
     core::mem::forget(a);
 }
 
+fn serialize_any_contract(pre: (Repr, Ghost)) {
+    use serde::Serialize;
+    let (r, g) = pre;
+    let a = LeanString(r);
+    let res = a.serialize(Rec);
+    obl!(res.is_ok(), "ser.ok", "C19");
+    obl!(unsafe { S_STR_CALLS == 1 && S_OTHER_CALLS == 0 }, "ser.exactly_one_serialize_str_like_string", "C19");
+    obl!(unsafe { S_PTR == text_ptr(&a.0, &g) && S_LEN == g.len }, "ser.serialises_exactly_the_text", "C19");
+    core::mem::forget(a);
+}
+
+// the same contract for SYMBOLIC sizes (the recorder keeps pointer and length, nothing walks the text)
+// @harness name=serde_serialize_any_heap props=C19 class=U features=serde,arbitrary tier=quick big=yes fn=Serialize
+#[kani::proof]
+fn serde_serialize_any_heap() {
+    serialize_any_contract(any_heap(MAX_CAP));
+}
+
+// @harness name=serde_serialize_any_static props=C19 class=U features=serde,arbitrary tier=quick big=yes fn=Serialize
+#[kani::proof]
+fn serde_serialize_any_static() {
+    serialize_any_contract(any_static(MAX_CAP));
+}
+
 // ---------------------------------------------------------------------------------------
 // Deserialize
 // ---------------------------------------------------------------------------------------
